@@ -78,6 +78,19 @@ class QHalf(Q.QOracle):
     w = self.w
     self.f = [float(s["kw"].get("qnoise_factor", 1.0)) for s in w.specs]
     self.ref1 = [Q.build_quantizer(with_f(s, 1.0)) for s in w.specs]
+    # the fully quantized value must not depend on use_ste: a second sibling
+    # with the other setting cross-checks the first (a defect in one mixing
+    # expression would otherwise be shared by the live object and its f=1
+    # sibling and cancel out of the interpolation check)
+    self.ref1_other = []
+    for s in w.specs:
+      if s["cls"] in ("quantized_bits", "quantized_relu", "quantized_po2",
+                      "quantized_relu_po2"):
+        o = with_f(s, 1.0)
+        o["kw"]["use_ste"] = not s["kw"].get("use_ste", True)
+        self.ref1_other.append(Q.build_quantizer(o))
+      else:
+        self.ref1_other.append(None)
     self.alpha_now = [s["kw"].get("alpha") for s in w.specs]
     self.isvar = [False] * w.n()
     self.trained = [False] * w.n()
@@ -92,6 +105,8 @@ class QHalf(Q.QOracle):
       self.w.traced.pop(op["q"], None)
     elif k == "TRAINABLE":
       self.ref1[op["q"]]._set_trainable_parameter()
+      if self.ref1_other[op["q"]] is not None:
+        self.ref1_other[op["q"]]._set_trainable_parameter()
       self.trained[op["q"]] = True
     elif k == "TRACE":
       if not self.isvar[op["q"]]:
@@ -121,6 +136,22 @@ class QHalf(Q.QOracle):
     y1 = w.call_raw(self.ref1[qi], x, op.get("sub", 0))
     s = surrogate(spec, x)
     ctx.checked()
+    if self.ref1_other[qi] is not None:
+      y1o = w.call_raw(self.ref1_other[qi], x, op.get("sub", 0))
+      a, b = y1.astype(np.float64), y1o.astype(np.float64)
+      if np.isfinite(a).all() and np.isfinite(b).all():
+        tol1 = 1e-6 * np.maximum(np.maximum(np.abs(a), np.abs(
+            s.astype(np.float64))), 1e-30)
+        if (np.abs(a - b) > tol1).any():
+          i = int(np.argmax((np.abs(a - b) - tol1).reshape(-1)))
+          ctx.violation("%s|fully-quantized-value-depends-on-use_ste" % c,
+                        "factor 1: use_ste=%r gives %r, use_ste=%r gives %r at "
+                        "x=%r; kw=%r" % (
+                            kw.get("use_ste", True), float(a.reshape(-1)[i]),
+                            not kw.get("use_ste", True),
+                            float(b.reshape(-1)[i]), float(x.reshape(-1)[i]),
+                            kw))
+          return
     if traced:
       ctx.probe("judged_through_trace")
     live_f = getattr(w.qs[qi], "qnoise_factor", None)
